@@ -23,6 +23,18 @@ NOTES = {
  "C15-c": "second round; initially MISSED (one reconciliation per fresh target); caught after chains of reconciliations on the same live target (it is a reference-count leak, which C03 catches directly)",
  "C19-c": "second round; initially MISSED (every test got fresh connections that were closed afterwards, which also removed the session the changed test leaks); caught after a configuration in which all tests share one connection that stays open",
 }
+
+# rounds 3-5: changes that were missed at first (details: DESIGN.md 9.5)
+for _sid in "C02-e C02-f C04-e C05-e C05-f C06-e C06-f C07-e C08-e C10-f C11-e C11-f C13-f C17-e C18-f C19-e C19-f".split():
+    NOTES.setdefault(_sid, "third round; initially MISSED; caught after the check was strengthened (DESIGN.md 9.5, third round)")
+for _sid in "C01-g C01-h C04-h C06-g C07-g C08-h C10-g C10-h C13-g C13-h C14-g C14-h C15-h C17-g C17-h C18-g".split():
+    NOTES.setdefault(_sid, "fourth round; initially MISSED; caught after the check was strengthened (DESIGN.md 9.5, fourth round)")
+for _sid in "C01-i C02-j C05-i C07-i C07-j C08-i C09-i C09-j C10-i C10-j C11-j C13-j C14-i C14-j C15-j C17-i C17-j C19-i".split():
+    NOTES.setdefault(_sid, "fifth round; initially MISSED; caught after the check was strengthened (DESIGN.md 9.5, fifth round)")
+NOTES.setdefault("C06-i", "fifth round; MISSED by C06 (the change is visible only through the client API); caught by C13 (process-and-acknowledge consumer)")
+NOTES.setdefault("C13-i", "fifth round; MISSED by C13; caught by C14 (receiver left behind by Close/Reset, stale state after Reset)")
+NOTES.setdefault("C16-i", "fifth round; NOT CAUGHT: needs a Modify racing with a Flush, outside C16's quantifier (histories, configurations); the unchanged tree has the mirror-image race (DESIGN.md 9.4, 9.5)")
+EXTRA_CHECKS = {"C06-i": "C13", "C13-i": "C14"}
 REBASED = {"C04-b", "C04-d", "C05-c", "C09-d", "C10-d", "C11-d"}
 ids = sys.argv[1:] or sorted(d for d in os.listdir(SEEDED) if os.path.isdir(os.path.join(SEEDED, d)))
 rows = []
@@ -52,6 +64,10 @@ def one(sid):
         "what_we_ran": f"tools/seedcheck.sh seeded/{sid} {prop} (scratch worktree of /repo HEAD + patch; ./check {prop} quick with VERIF_REPO pointing at it); tools/seedsuite.sh for the repository's own suite",
         "check_result": {"check": prop, "verdict": chk.group(2) if chk else "ERROR", "signatures": (chk.group(3) or "").split() if chk else []},
     }
+    if sid in EXTRA_CHECKS:
+        out2 = subprocess.run([os.path.join(ROOT, "tools/seedcheck.sh"), d, EXTRA_CHECKS[sid], "--skip-suite"], capture_output=True, text=True).stdout
+        chk2 = re.search(r"check=(\w+) (CAUGHT|MISSED|ERROR)(?: :: (.*))?", out2)
+        meta["also_checked_with"] = {"check": EXTRA_CHECKS[sid], "verdict": chk2.group(2) if chk2 else "ERROR", "signatures": (chk2.group(3) or "").split() if chk2 else []}
     if sid in NOTES:
         meta["history"] = NOTES[sid]
     import glob as _g
@@ -66,7 +82,10 @@ with ThreadPoolExecutor(JOBS) as ex:
     list(ex.map(one, ids))
 for sid in sorted(d for d in os.listdir(SEEDED) if os.path.isfile(os.path.join(SEEDED, d, "meta.json"))):
     meta = json.load(open(os.path.join(SEEDED, sid, "meta.json")))
-    rows.append((sid, meta["check_result"]["verdict"] + (" (after strengthening)" if "history" in meta and "MISSED" in meta["history"] else ""), " ".join(meta["check_result"]["signatures"][:3]), meta["confirmed_by_us"]["repository_suite_with_change"].split(" at ")[0]))
+    verdict = meta["check_result"]["verdict"] + (" (after strengthening)" if "history" in meta and "initially MISSED" in meta["history"] else "")
+    if "also_checked_with" in meta:
+        verdict += "; " + meta["also_checked_with"]["check"] + ": " + meta["also_checked_with"]["verdict"]
+    rows.append((sid, verdict, " ".join(meta["check_result"]["signatures"][:3]), meta["confirmed_by_us"]["repository_suite_with_change"].split(" at ")[0]))
 with open(os.path.join(SEEDED, "RESULTS.md"), "w") as f:
     f.write("| seeded change | caught by its check (quick tier) | first signatures | repository suite with the change |\n|---|---|---|---|\n")
     for r in rows:
